@@ -113,16 +113,17 @@ func (fr *Frame) callWith0(st *State, c *ssa.CallCommon, in ssa.Instruction, arg
 				return res
 			}
 		}
+		// the dynamic type is known: the interface value was made from a struct of one named type on every
+		// path that reaches the call (x := T{...}; var i I = x; i.m()): call T.m (its contract says more than
+		// the interface method's)
+		if callee, recv := fr.devirtualize(fnval, c); callee != nil {
+			return fr.callStatic(st, callee, nil, c, in, append([]*Term{recv}, args...), sig)
+		}
 		if ct := ex.W.contracts[key]; ct != nil {
 			return fr.applyContract(st, ct, nil, c, in, full, sig, true)
 		}
 		if pureIface(key) {
 			return fr.freshResults(st, sig, "inv."+c.Method.Name())
-		}
-		// the dynamic type is known: the interface value was made from a struct of one named type on every
-		// path that reaches the call (x := T{...}; var i I = x; i.m()): call T.m
-		if callee, recv := fr.devirtualize(fnval, c); callee != nil {
-			return fr.callStatic(st, callee, nil, c, in, append([]*Term{recv}, args...), sig)
 		}
 		if isKeeperIface(recvT) {
 			// expected-keeper interfaces work on the KV store (the ghost world), not on Go memory of the caller
@@ -601,7 +602,17 @@ func (ex *Exec) lenOf(st *State, x *Term, t types.Type) *Term {
 	case *types.Basic:
 		return ex.tm.StrLen(x)
 	case *types.Map:
-		return f.Ite(f.Eq(x, f.Int(0)), f.Int(0), ex.mapLen(st, x, u))
+		l := ex.mapLen(st, x, u)
+		// an empty map holds no key
+		hn, _, _, ks, _ := ex.mapComps(u)
+		bk := f.Bound("k", ks)
+		hasArr := f.Select(ex.comp(st, hn, ArraySort(SInt, ArraySort(ks, SBool))), x)
+		ex.assume(st, f.Ge(l, f.Int(0)))
+		// (a quantified fact: only given to proofs that talk about key presence, it slows the others down)
+		if ex.rootMentions("has(") {
+			ex.assume(st, f.Implies(f.And(f.Neq(x, f.Int(0)), f.Eq(l, f.Int(0))), f.Forall([]*Term{bk}, f.Not(f.Select(hasArr, bk)))))
+		}
+		return f.Ite(f.Eq(x, f.Int(0)), f.Int(0), l)
 	case *types.Array:
 		return f.Int(u.Len())
 	case *types.Pointer:
